@@ -164,7 +164,15 @@ def run(ctx):
         ge = [t2 for (aa, t2) in fs if aa[0] == "le" and show(aa[1]) == "now" and show(aa[2]) == "res"]
         v = show(a["value"])
         key = "FdtReceiver::push late = %s" % v
-        if (v == "True" and lt and all(lt)) or (v == "False" and ge and all(ge)):
+        direct = False
+        if v not in ("True", "False"):
+            # `late = res < now` (or an equivalent spelling): the assigned value is the comparison itself
+            from ..cfg import facts_of
+            ex = Slicer(p.body).expand(a["value"], stop=("res", "now"))
+            direct = any(aa[0] == "lt" and t2 and show(polarity.strip(aa[1])) == "res" and show(polarity.strip(aa[2])) == "now" for (aa, t2) in facts_of(ex, True))
+        if direct:
+            r3.ok("FdtReceiver::push late = (res < now)", "the flag is the comparison itself", loc(a["sp"]))
+        elif (v == "True" and lt and all(lt)) or (v == "False" and ge and all(ge)):
             r3.ok(key, "on the matching edge of `res < now`", loc(a["sp"]))
         else:
             r3.violation(key, "the late flag does not match the comparison of the sender time with now", loc(a["sp"]))
@@ -198,7 +206,7 @@ def run(ctx):
             r3.ok(key, "under late == %s" % late[0], s.loc)
         else:
             r3.violation(key, "sign of the clock correction does not match the late flag", s.loc)
-    r3.floor(6, "skew facts")
+    r3.floor(5, "skew facts")
     # flag/offset only written in push (and new)
     for fld in ("sender_current_time_late", "sender_current_time_offset"):
         for a in field_accesses(prog, FR, fld):
